@@ -121,20 +121,117 @@ theorem readerNew_writeEntry (sizes : List Nat) {m : EntryMeta} (hm : m.WF) {c :
   simp only [writeEntry, List.append_assoc, readerNew_intoHeader sizes hm hc ck hck]
   rw [pad, padLen_add_mul4 _ (intoHeader_length m c.length ck), ← pad]
 
+/-! ## `fileIndex` -/
+
+/-- `idxOf` is the FIRST position -/
+theorem idxOf_le_of_getElem? {α} [BEq α] [LawfulBEq α] (l : List α) (a : α) :
+    ∀ j, l[j]? = some a → l.idxOf a ≤ j := by
+  induction l with
+  | nil => intro j h; simp at h
+  | cons x t ih =>
+    intro j h
+    rw [List.idxOf_cons]
+    by_cases hx : x = a
+    · subst hx; simp
+    · cases j with
+      | zero => simp at h; exact absurd h hx
+      | succ k =>
+        simp only [List.getElem?_cons_succ] at h
+        have := ih k h
+        have hb : (x == a) = false := by simpa using hx
+        rw [hb, cond_false]; omega
+
+theorem fileIndex_lt {paths : List Bytes} {e : PayloadEntry} {i : Nat} (h : fileIndex paths e = some i) :
+    i < paths.length := by
+  cases e with
+  | cpio ce =>
+    simp only [fileIndex] at h
+    split at h
+    · cases h; assumption
+    · cases h
+  | stripped idx =>
+    simp only [fileIndex] at h
+    split at h
+    · cases h; assumption
+    · cases h
+
+/-- a cpio entry gets the index of a header file whose path is the one its name stands for … -/
+theorem fileIndex_cpio {paths : List Bytes} {ce : CpioEntry} {i : Nat} (h : fileIndex paths (.cpio ce) = some i) :
+    paths[i]? = some (namePath ce.name) := by
+  simp only [fileIndex] at h
+  split at h
+  · rename_i hlt
+    cases h
+    rw [List.getElem?_eq_getElem hlt, List.getElem_idxOf hlt]
+  · cases h
+
+/-- … the first such file -/
+theorem fileIndex_cpio_first {paths : List Bytes} {ce : CpioEntry} {i : Nat} (h : fileIndex paths (.cpio ce) = some i) :
+    ∀ j, paths[j]? = some (namePath ce.name) → i ≤ j := by
+  intro j hj
+  simp only [fileIndex] at h
+  split at h
+  · cases h
+    exact idxOf_le_of_getElem? paths _ j hj
+  · cases h
+
+theorem fileIndex_stripped {paths : List Bytes} {idx i : Nat} (h : fileIndex paths (.stripped idx) = some i) :
+    i = idx := by
+  simp only [fileIndex] at h
+  split at h
+  · cases h; rfl
+  · cases h
+
+/-- no index exactly when no header file has the path the name stands for -/
+theorem fileIndex_cpio_none {paths : List Bytes} {ce : CpioEntry} :
+    fileIndex paths (.cpio ce) = none ↔ namePath ce.name ∉ paths := by
+  simp only [fileIndex]
+  constructor
+  · intro h hm
+    rw [if_pos (List.idxOf_lt_length_of_mem hm)] at h
+    cases h
+  · intro h
+    rw [if_neg]
+    intro hlt
+    exact h (List.idxOf_lt_length_iff.mp hlt)
+
+theorem fileIndex_cpio_of_mem {paths : List Bytes} {ce : CpioEntry} (h : namePath ce.name ∈ paths) :
+    fileIndex paths (.cpio ce) = some (paths.idxOf (namePath ce.name)) := by
+  simp only [fileIndex]
+  rw [if_pos (List.idxOf_lt_length_of_mem h)]
+
+theorem fileIndex_stripped_none {paths : List Bytes} {idx : Nat} :
+    fileIndex paths (.stripped idx) = none ↔ paths.length ≤ idx := by
+  simp only [fileIndex]
+  constructor
+  · intro h
+    split at h
+    · cases h
+    · omega
+  · intro h
+    rw [if_neg (by omega)]
+
+/-- what `Reader::new` returns for an entry written from `m` -/
+abbrev readOf (x : EntryMeta × Bytes) : PayloadEntry := .cpio (entryOf x.1 x.2.length none)
+
 /-- one `next()` of the iterator on an entry written by the library's writer -/
-theorem iterateE_writeEntry (sizes : List Nat) (fuel : Nat) {m : EntryMeta} (hm : m.WF) (hnt : m.name ≠ cpioTrailerName)
-    {c : Bytes} (hc : c.length < 4294967296) (ck : Option Nat) (hck : ck.getD 0 < 4294967296) (rest : Bytes) :
-    iterateE sizes (fuel + 1) (writeEntry m c ck ++ rest)
-      = .ok (.cpio (entryOf m c.length ck), c) :: iterateE sizes fuel rest := by
+theorem iterateE_writeEntry (paths : List Bytes) (sizes : List Nat) (fuel : Nat) {m : EntryMeta} (hm : m.WF)
+    (hnt : m.name ≠ cpioTrailerName) {c : Bytes} (hc : c.length < 4294967296) (ck : Option Nat)
+    (hck : ck.getD 0 < 4294967296) (rest : Bytes) :
+    iterateE paths sizes (fuel + 1) (writeEntry m c ck ++ rest)
+      = match fileIndex paths (.cpio (entryOf m c.length ck)) with
+        | some i => .ok (i, .cpio (entryOf m c.length ck), c) :: iterateE paths sizes fuel rest
+        | none => [.err "no-such-file"] := by
   have ht : isTrailer (.cpio (entryOf m c.length ck)) = false := by
     simp [isTrailer, entryOf, hnt]
   simp only [iterateE, readerNew_writeEntry sizes hm hc ck hck, ht, readData_append]
-  simp
+  cases fileIndex paths (.cpio (entryOf m c.length ck)) <;> simp
 
 theorem trailer_wf : EntryMeta.WF { name := cpioTrailerName, nlink := 1 } := by
   constructor <;> decide
 
-theorem iterateE_trailer (sizes : List Nat) (fuel : Nat) (rest : Bytes) : iterateE sizes fuel (trailer ++ rest) = [] := by
+theorem iterateE_trailer (paths : List Bytes) (sizes : List Nat) (fuel : Nat) (rest : Bytes) :
+    iterateE paths sizes fuel (trailer ++ rest) = [] := by
   cases fuel with
   | zero => rfl
   | succ k =>
@@ -147,20 +244,57 @@ theorem iterateE_trailer (sizes : List Nat) (fuel : Nat) (rest : Bytes) : iterat
 /-- entries acceptable to the round-trip theorem -/
 def EntryOK (x : EntryMeta × Bytes) : Prop := x.1.WF ∧ x.1.name ≠ cpioTrailerName ∧ x.2.length < 4294967296
 
-theorem iterateE_archiveOf (sizes : List Nat) (es : List (EntryMeta × Bytes)) (hes : ∀ x ∈ es, EntryOK x) (rest : Bytes) :
-    ∀ fuel, iterateE sizes fuel (archiveOf es ++ rest)
-      = ((es.take fuel).map fun x => .ok (.cpio (entryOf x.1 x.2.length none), x.2)) := by
+/-- what the iterator is to yield for the written entries `es` — in whatever order they are, whichever
+header files they leave out: every entry under the index of the header file it names, up to (and
+excluding) the first entry that names none, which is an error -/
+def expectItems (paths : List Bytes) : List (EntryMeta × Bytes) → List (Out (Nat × PayloadEntry × Bytes))
+  | [] => []
+  | x :: t =>
+    match fileIndex paths (readOf x) with
+    | some i => .ok (i, readOf x, x.2) :: expectItems paths t
+    | none => [.err "no-such-file"]
+
+theorem iterateE_archiveOf (paths : List Bytes) (sizes : List Nat) (es : List (EntryMeta × Bytes))
+    (hes : ∀ x ∈ es, EntryOK x) (rest : Bytes) :
+    ∀ fuel, iterateE paths sizes fuel (archiveOf es ++ rest) = expectItems paths (es.take fuel) := by
   induction es with
-  | nil => intro fuel; simp [archiveOf, iterateE_trailer]
+  | nil => intro fuel; simp [archiveOf, iterateE_trailer, expectItems]
   | cons x t ih =>
     intro fuel
     obtain ⟨m, c⟩ := x
     cases fuel with
-    | zero => simp [iterateE]
+    | zero => simp [iterateE, expectItems]
     | succ k =>
       obtain ⟨hw, hn, hl⟩ := hes (m, c) (by simp)
-      simp only [archiveOf, List.append_assoc, iterateE_writeEntry sizes k hw hn hl none (by decide),
-        ih (fun x hx => hes x (by simp [hx])) k, List.take_succ_cons, List.map_cons]
+      simp only [archiveOf, List.append_assoc, iterateE_writeEntry paths sizes k hw hn hl none (by decide),
+        ih (fun x hx => hes x (by simp [hx])) k, List.take_succ_cons, expectItems, readOf]
+
+/-- all names known: one `ok` item per entry, under the index of the file it names -/
+theorem expectItems_known (paths : List Bytes) (es : List (EntryMeta × Bytes))
+    (h : ∀ x ∈ es, namePath x.1.name ∈ paths) :
+    expectItems paths es = es.map fun x => .ok (paths.idxOf (namePath x.1.name), readOf x, x.2) := by
+  induction es with
+  | nil => rfl
+  | cons x t ih =>
+    have hx : namePath (entryOf x.1 x.2.length none).name ∈ paths := h x (by simp)
+    simp only [expectItems, readOf, fileIndex_cpio_of_mem hx, List.map_cons,
+      ih (fun y hy => h y (by simp [hy]))]
+    rfl
+
+/-- the first entry that names no header file ends the iteration with an error item -/
+theorem expectItems_unknown (paths : List Bytes) (known : List (EntryMeta × Bytes)) (x : EntryMeta × Bytes)
+    (t : List (EntryMeta × Bytes)) (h : ∀ y ∈ known, namePath y.1.name ∈ paths) (hx : namePath x.1.name ∉ paths) :
+    expectItems paths (known ++ x :: t)
+      = (known.map fun y => .ok (paths.idxOf (namePath y.1.name), readOf y, y.2)) ++ [.err "no-such-file"] := by
+  induction known with
+  | nil =>
+    have : fileIndex paths (readOf x) = none := fileIndex_cpio_none.mpr hx
+    simp only [List.nil_append, expectItems, this, List.map_nil]
+  | cons y u ih =>
+    have hy : namePath (entryOf y.1 y.2.length none).name ∈ paths := h y (by simp)
+    simp only [List.cons_append, expectItems, readOf, fileIndex_cpio_of_mem hy, List.map_cons,
+      ih (fun z hz => h z (by simp [hz]))]
+    rfl
 
 theorem readerNew_strippedHeader (sizes : List Nat) {idx s : Nat} (hi : idx < 4294967295) (hs : sizes[idx]? = some s)
     (rest : Bytes) : readerNew sizes (strippedHeader idx ++ rest) = .ok (.stripped idx, s, rest) := by
@@ -170,15 +304,15 @@ theorem readerNew_strippedHeader (sizes : List Nat) {idx s : Nat} (hi : idx < 42
   simp only [readerNew, strippedHeader, List.append_assoc, takeN_append' h6, Out.bind_ok, hne, if_false, if_true,
     readHex8_fmt (show idx < 4294967296 by omega), takeN_append' (pad_length _), hidx, hs, Out.pure_eq]
 
-theorem iterateE_stripped (sizes : List Nat) (rest : Bytes) (cs : List Bytes) :
-    ∀ (k fuel : Nat), k + cs.length ≤ 4294967295 →
+theorem iterateE_stripped (paths : List Bytes) (sizes : List Nat) (rest : Bytes) (cs : List Bytes) :
+    ∀ (k fuel : Nat), k + cs.length ≤ 4294967295 → k + cs.length ≤ paths.length →
       (∀ j (h : j < cs.length), sizes[k + j]? = some cs[j].length) →
-      iterateE sizes fuel (archiveStrippedFrom k cs ++ rest)
-        = (((cs.take fuel).zipIdx k).map fun x => .ok (.stripped x.2, x.1)) := by
+      iterateE paths sizes fuel (archiveStrippedFrom k cs ++ rest)
+        = (((cs.take fuel).zipIdx k).map fun x => .ok (x.2, .stripped x.2, x.1)) := by
   induction cs with
-  | nil => intro k fuel _ _; simp [archiveStrippedFrom, iterateE_trailer]
+  | nil => intro k fuel _ _ _; simp [archiveStrippedFrom, iterateE_trailer]
   | cons c t ih =>
-    intro k fuel hk hs
+    intro k fuel hk hp hs
     cases fuel with
     | zero => simp [iterateE]
     | succ f =>
@@ -187,11 +321,13 @@ theorem iterateE_stripped (sizes : List Nat) (rest : Bytes) (cs : List Bytes) :
         simpa only [Nat.add_zero, List.getElem_cons_zero] using this
       have hk' : k < 4294967295 := by simp at hk; omega
       have ht : isTrailer (.stripped k) = false := by simp [isTrailer]; omega
-      have ih' := ih (k + 1) f (by simp at hk; omega) (fun j h => by
+      have hfi : fileIndex paths (.stripped k) = some k := by
+        simp only [fileIndex]; rw [if_pos (by simp at hp; omega)]
+      have ih' := ih (k + 1) f (by simp at hk; omega) (by simp at hp; omega) (fun j h => by
         have := hs (j + 1) (by simp; omega)
         simp only [List.getElem_cons_succ] at this
         rw [show k + 1 + j = k + (j + 1) by omega]; exact this)
-      simp only [archiveStrippedFrom, List.append_assoc, iterateE, readerNew_strippedHeader sizes hk' h0, ht,
+      simp only [archiveStrippedFrom, List.append_assoc, iterateE, readerNew_strippedHeader sizes hk' h0, ht, hfi,
         strippedDataPad_eq, readData_append, ih', List.take_succ_cons, List.zipIdx_cons, List.map_cons]
       simp
 
@@ -249,28 +385,52 @@ theorem readData_ok {fs : Nat} {r c r' : Bytes} (h : readData fs r = .ok (c, r')
     refine ⟨by omega, p, hl, ?_⟩
     rw [← hpq, List.take_append_drop]
 
-theorem iterateE_sizes (sizes : List Nat) : ∀ (fuel : Nat) (bs : Bytes) (e : PayloadEntry) (c : Bytes),
-    .ok (e, c) ∈ iterateE sizes fuel bs → entrySize sizes e = some c.length := by
+/-- one step of the iterator, read backwards: an `ok` item is the head (entry read, index looked up,
+data read) or comes from the rest of the stream -/
+theorem iterateE_ok_cases {paths : List Bytes} {sizes : List Nat} {fuel : Nat} {bs : Bytes} {i : Nat}
+    {e : PayloadEntry} {c : Bytes} (h : .ok (i, e, c) ∈ iterateE paths sizes (fuel + 1) bs) :
+    ∃ e0 fs r, readerNew sizes bs = .ok (e0, fs, r) ∧ isTrailer e0 = false ∧ ∃ i0, fileIndex paths e0 = some i0 ∧
+      ∃ c0 r', readData fs r = .ok (c0, r') ∧
+        ((i, e, c) = (i0, e0, c0) ∨ .ok (i, e, c) ∈ iterateE paths sizes fuel r') := by
+  unfold iterateE at h
+  split at h
+  · rename_i e0 fs r hr
+    split at h
+    · cases h
+    · rename_i hnt
+      split at h
+      · simp at h
+      · rename_i i0 hi0
+        split at h
+        · rename_i c0 r' hd
+          refine ⟨e0, fs, r, hr, by simpa using hnt, i0, hi0, c0, r', hd, ?_⟩
+          simp only [List.mem_cons, Out.ok.injEq] at h
+          exact h
+        · simp at h
+        · simp at h
+  · simp at h
+  · simp at h
+
+/-- every `ok` item carries the index `fileIndex` gives for its own entry, and a content of the size
+the reader took for that entry -/
+theorem iterateE_item (paths : List Bytes) (sizes : List Nat) : ∀ (fuel : Nat) (bs : Bytes) (i : Nat)
+    (e : PayloadEntry) (c : Bytes), .ok (i, e, c) ∈ iterateE paths sizes fuel bs →
+      fileIndex paths e = some i ∧ entrySize sizes e = some c.length := by
   intro fuel
   induction fuel with
-  | zero => intro bs e c h; simp [iterateE] at h
+  | zero => intro bs i e c h; simp [iterateE] at h
   | succ k ih =>
-    intro bs e c h
-    unfold iterateE at h
-    split at h
-    · rename_i e0 fs r hr
-      split at h
-      · cases h
-      · split at h
-        · rename_i c0 r' hd
-          simp only [List.mem_cons, Out.ok.injEq, Prod.mk.injEq] at h
-          rcases h with ⟨rfl, rfl⟩ | h
-          · rw [readerNew_size hr, (readData_ok hd).1]
-          · exact ih _ _ _ h
-        · simp at h
-        · simp at h
-    · simp at h
-    · simp at h
+    intro bs i e c h
+    obtain ⟨e0, fs, r, hr, _, i0, hi0, c0, r', hd, h⟩ := iterateE_ok_cases h
+    rcases h with h | h
+    · simp only [Prod.mk.injEq] at h
+      obtain ⟨rfl, rfl, rfl⟩ := h
+      exact ⟨hi0, by rw [readerNew_size hr, (readData_ok hd).1]⟩
+    · exact ih _ _ _ _ h
+
+theorem iterateE_sizes (paths : List Bytes) (sizes : List Nat) (fuel : Nat) (bs : Bytes) (i : Nat) (e : PayloadEntry)
+    (c : Bytes) (h : .ok (i, e, c) ∈ iterateE paths sizes fuel bs) : entrySize sizes e = some c.length :=
+  (iterateE_item paths sizes fuel bs i e c h).2
 
 /-! ## the builder's loop -/
 
@@ -303,6 +463,39 @@ theorem builderEntriesFrom_map (uid gid : Nat) (fs : List FileIn) : ∀ ino,
   induction fs with
   | nil => intro _; rfl
   | cons f t ih => intro ino; simp [builderEntriesFrom, builderMeta, ih]
+
+/-! ## header paths -/
+
+/-- the header paths of the written entries: what their names stand for -/
+abbrev pathsOf (es : List (EntryMeta × Bytes)) : List Bytes := es.map fun x => namePath x.1.name
+
+/-- the header paths of the builder's files: the cpio path (BTreeMap key, `"." + dir + base`) without its
+leading dot -/
+abbrev headerPaths (fs : List FileIn) : List Bytes := fs.map fun f => namePath f.path
+
+/-- a builder key: `format!(".{}{}", dir, base_name)` with `dir` starting with `/` -/
+def FileIn.Rooted (f : FileIn) : Prop := ∃ r, f.path = 46 :: 47 :: r
+
+/-- for a builder key the header path is the key without its leading dot … -/
+theorem namePath_rooted {f : FileIn} (h : f.Rooted) : namePath f.path = f.path.drop 1 := by
+  obtain ⟨r, hr⟩ := h
+  rw [hr]; rfl
+
+/-- … so distinct keys (a BTreeMap has no others) give distinct header paths -/
+theorem headerPaths_nodup {fs : List FileIn} (hr : ∀ f ∈ fs, f.Rooted) (hnd : (fs.map (·.path)).Nodup) :
+    (headerPaths fs).Nodup := by
+  refine List.pairwise_map.mpr ((List.pairwise_map.mp hnd).imp_of_mem ?_)
+  intro a b ha hb hab heq
+  obtain ⟨ra, hra⟩ := hr a ha
+  obtain ⟨rb, hrb⟩ := hr b hb
+  rw [hra, hrb] at heq
+  simp only [namePath] at heq
+  exact hab (by rw [hra, hrb, heq])
+
+theorem builder_pathsOf (uid gid : Nat) (fs : List FileIn) (ino : Nat) :
+    pathsOf (builderEntriesFrom uid gid ino fs) = headerPaths fs := by
+  have := congrArg (List.map fun x : Bytes × Bytes => namePath x.1) (builderEntriesFrom_map uid gid fs ino)
+  simpa [List.map_map, Function.comp_def] using this
 
 /-! ## the builder's file map (BTreeMap keyed by cpio path) -/
 
